@@ -26,7 +26,7 @@ class Contract:
     def __init__(self, target, params=None, requires=(), ensures=None, raises=None, on_raise=None, modifies=None,
                  result=None, returns=None, sets=None, loops=None, inline=(), assumed=None, pure=False,
                  bv_width=None, covers=(), options=None, lemmas=None, doc='', self_type=None, raises_other='forbid',
-                 asserts=None, ghost_init=None, prop=None, replay=None, unchanged_on_raise=None, opaque=()):
+                 asserts=None, ghost_init=None, prop=None, replay=None, unchanged_on_raise=None, opaque=(), instances=None):
         self.target = target
         self.params = params or {}
         self.requires = list(requires)
@@ -52,6 +52,10 @@ class Contract:
         self.replay = replay
         self.unchanged_on_raise = unchanged_on_raise
         self.opaque = set(opaque)
+        # lemma calls (Dafny/Verus style): {'entry'|'exit': ['spec.mod.lemma_x(args)', ...]}.  Each clause must be a call of a spec
+        # function registered in Registry.lemmas, i.e. one that has its own proof unit (`result` is True for ALL arguments, with
+        # everything revealed); the instance is then assumed here, with the spec functions this proof keeps opaque left opaque.
+        self.instances = instances or {}
 
 
 def _named(x):
@@ -75,6 +79,7 @@ class Registry:
         self.lemma_hooks = []
         self.used = set()
         self.opaque_now = set()   # spec functions treated as uninterpreted symbols in the current proof (opaque / reveal)
+        self.lemmas = set()       # qualified names of spec lemma functions that have their own proof unit
 
     def add(self, c):
         if isinstance(c, ClassContract):
@@ -95,8 +100,8 @@ class Registry:
     def call_hook(self, E, qualname, st):
         if qualname in self.opaque_now or (qualname.startswith('spec.') and _always_uf(qualname)):
             return lambda E, st, args, kwargs, q=qualname: apply_opaque(E, q, st, args, kwargs)
-        if qualname in self.force_inline:
-            return None
+        if qualname in self.force_inline or qualname in self.lemmas:
+            return None        # a lemma's statement is always expanded where it is instantiated
         m = self.models.get(qualname)
         if m is not None:
             self.used.add(qualname)
@@ -931,6 +936,24 @@ def apply_opaque(E, qualname, st, args, kwargs):
                         st.fact(t2)
                 st.fact(_as_z3(g))
     return [('val', st, rv)]
+
+
+def assume_instances(E, c, st, where):
+    """assume the lemma instances of contract c for program point `where` ('entry' | 'exit')"""
+    for cl in c.instances.get(where, []):
+        node = parse_clause(cl)
+        ok = isinstance(node, ast.Call) and ast.unparse(node.func) in E.registry.lemmas
+        if not ok:
+            raise Unsupported('lemma instance %r is not a call of a registered (separately proved) spec lemma' % cl)
+        st.assume(_as_z3(eval_clause(E, cl, st)))
+
+
+def lemma_contract(reg, qualname, params, opaque=(), options=None, requires=()):
+    """register a spec-level lemma: the restricted-python function `qualname` returns True for all arguments of the given types
+    (proved by symbolic execution of its body with everything revealed, like any other function under contract)"""
+    reg.lemmas.add(qualname)
+    return reg.add(Contract(qualname, params=params, requires=list(requires), ensures={'holds': 'result'}, raises={}, modifies=[],
+                            opaque=opaque, options=dict(options or {}, spec_target=True)))
 
 
 def _eval_path_base(E, st, path):
